@@ -60,7 +60,12 @@ def _job(args):
                 k = rng.randint(1, len(f) - 2)
                 tgt = rng.choice([m for m in list(dirs) + pyfiles if m[:k] == f[:k]] or [f])
                 if len(tgt) > k:
-                    files[f]["body"].append(("import", [scan.dotted(tgt[k:])]))
+                    # both spellings: 'import pkg.mod' and 'from pkg import mod' (the name checked against the scanned modules only
+                    # after the prefix is prepended)
+                    if len(tgt) > k + 1 and rng.random() < 0.5:
+                        files[f]["body"].append(("from", 0, scan.dotted(tgt[k:-1]), [tgt[-1]] + (["helper"] if rng.random() < 0.3 else [])))
+                    else:
+                        files[f]["body"].append(("import", [scan.dotted(tgt[k:])]))
         base = scan.materialise(dirs, files)
         # now and then with exclusion patterns that differ from names of the tree only in case: they exclude nothing
         xk = {}
